@@ -209,7 +209,23 @@ def fingerprint(qc):
     def ent(a):
         return (id(a[0]), type(a[0]).__name__, tuple(a[1]), a[2])
     return (type(qc).__name__, qc.num_qubits, qc.name, tuple(ent(a) for a in qc.gates),
-            tuple(ent(a) for a in qc.gates_computed), tuple(qc.qubit_map.items()))
+            tuple(ent(a) for a in qc.gates_computed), tuple(qc.qubit_map.items()), _other_state(qc))
+
+
+def _canon(v):
+    if isinstance(v, (set, frozenset)):
+        return ("set", tuple(sorted(v, key=repr)))
+    if isinstance(v, dict):
+        return ("dict", tuple((repr(k), _canon(x)) for k, x in v.items()))
+    if isinstance(v, (list, tuple)):
+        return ("seq", tuple(_canon(x) for x in v))
+    return v if isinstance(v, (int, float, str, bool, type(None))) else type(v).__name__
+
+
+def _other_state(qc):
+    """Every other attribute of the circuit object (QCircuitEnhanced: the ancilla bookkeeping sets)."""
+    skip = ("gates", "gates_computed", "qubit_map", "num_qubits", "name")
+    return tuple((k, _canon(v)) for k, v in sorted(vars(qc).items()) if k not in skip)
 
 
 def scribble(qc):
@@ -224,6 +240,20 @@ def scribble(qc):
     qc.gates_computed.clear()
     qc.qubit_map["_scribble"] = 0
     qc.num_qubits += 3
+    # the ancilla bookkeeping of a QCircuitEnhanced, through its own operations, and every other container attribute
+    if hasattr(qc, "add_ancilla"):
+        a = qc.add_ancilla()
+        qc.get_free_ancilla()
+        qc.mark_ancilla(a)
+    for k, v in vars(qc).items():
+        if k in ("gates", "gates_computed", "qubit_map"):
+            continue
+        if isinstance(v, set):
+            v.add(987)
+        elif isinstance(v, dict):
+            v["_scribble"] = 1
+        elif isinstance(v, list):
+            v.append("_scribble")
 
 
 def exc_code(e):
